@@ -2,7 +2,6 @@
 From Coq Require Import List ZArith NArith Bool Lia.
 From YK Require Import Base.Int64 Base.Res Preempt.Snapshot.
 Import ListNotations.
-Set Default Timeout 30.
 
 Lemma bytes_eqb_refl : forall a, bytes_eqb a a = true.
 Proof. induction a as [|x a IH]; cbn; auto. rewrite N.eqb_refl, IH. reflexivity. Qed.
